@@ -133,9 +133,9 @@ func simpleValue(s string) bool {
 	return true
 }
 
-// proto builds a fresh gNMI proto for p. Elements without keys get a nil map, as
-// StringToStructuredPath and hand-written code produce both nil and empty maps the caller can
-// ask for empty maps with protoEmptyMaps.
+// proto builds a fresh gNMI proto for p. Elements without keys get a nil map (what hand-written
+// code produces; StringToStructuredPath produces empty non-nil maps, which is why comparisons
+// go through fromProto or proto.Equal, for both of which the two are the same).
 func (p mPath) proto() *gpb.Path {
 	g := &gpb.Path{Origin: p.Origin, Target: p.Target}
 	for _, e := range p.Elems {
